@@ -446,7 +446,7 @@ inductive InputA (V : Type) where
 
 /-- constraints of a v2 non-body parameter, read as a schema -/
 def paramCons2 {V : Type} (p : Param2 V) : ASch V :=
-  abs2S (.node { ty := p.cons.ty, fmt := p.cons.fmt, sc := p.cons.sc } (itemsKids p.items))
+  abs2S (.node { ty := p.cons.ty, fmt := p.cons.fmt, sc := normRec paramConstraintFields p.cons.sc } (itemsKids p.items))
 
 def inputA2 {V : Type} : PRef2 V → InputA V
   | .ref k n => .ref (absRK2 k) n
